@@ -21,19 +21,23 @@ def jscript(cmds):
 class Fixture:
     """a real Tx whose inputs have known kinds and spent outputs"""
 
-    def __init__(self, rng):
+    def __init__(self, rng, unsigned_taproot=False):
         from buidl.tx import Tx, TxIn, TxOut
         from buidl.script import Script
         from buidl.witness import Witness
         self.rng = rng
-        nin = rng.choice([1, 1, 2, 3, 4, 6])
+        nin = rng.choice([1, 1, 2, 3, 4, 6]) if not unsigned_taproot else rng.choice([2, 3, 4])
         nout = rng.choice([0, 1, 1, 2, 3, 6])
         self.kinds = []
         self.meta = []
         tins = []
         for k in range(nin):
             kind = rng.choice(["p2pkh", "p2sh", "p2wpkh", "p2sh-p2wpkh", "p2wsh", "p2sh-p2wsh", "p2tr-key", "p2tr-script"])
+            if unsigned_taproot:
+                kind = "p2tr-key" if k < nin - 1 or rng.random() < 0.7 else "p2pkh"
             m = self.make_input(kind)
+            if unsigned_taproot:
+                m["witness"], m["script_sig"] = [], []          # nothing signed yet
             t = TxIn(bytes(rng.randrange(256) for _ in range(32)), rng.choice([0, 1, 7, 0xFFFFFFFF, rng.randrange(2 ** 32)]),
                      Script(list(m["script_sig"])), rng.choice([0xFFFFFFFF, 0xFFFFFFFE, 0, 5, 0x80000001, rng.randrange(2 ** 32)]))
             if m["witness"]:
@@ -130,7 +134,7 @@ class Fixture:
         return j, spent
 
     # ---- steps ----------------------------------------------------------------------------
-    def edit(self):
+    def edit(self, what=None, k=None):
         from buidl.tx import TxIn, TxOut
         from buidl.script import Script
         from buidl.timelock import Sequence, Locktime
@@ -141,8 +145,9 @@ class Fixture:
             choices += ["out_amount", "out_script", "del_output", "out_amount", "out_script"]
         if any(k.startswith("p2tr") for k in self.kinds):
             choices += ["annex"]
-        what = r.choice(choices)
-        k = r.randrange(len(tx.tx_ins))
+        forced = k
+        what = what or r.choice(choices)
+        k = r.randrange(len(tx.tx_ins)) if forced is None else forced
         if what == "in_seq":
             tx.tx_ins[k].sequence = Sequence(r.choice([0, 1, 0xFFFFFFFF, r.randrange(2 ** 32)]))
         elif what == "in_outpoint":
@@ -166,7 +171,7 @@ class Fixture:
             del tx.tx_outs[r.randrange(len(tx.tx_outs))]
         elif what == "annex":
             cand = [i for i, kd in enumerate(self.kinds) if kd.startswith("p2tr")]
-            k = r.choice(cand)
+            k = r.choice(cand) if forced is None else forced
             w = tx.tx_ins[k].witness.items
             wm = self.wit_model[k]
             if len(wm) >= 2 and wm[-1][:1] == b"\x50":
@@ -182,15 +187,16 @@ class Fixture:
                 wm.extend(items)
         return what
 
-    def query(self, cid):
+    def query(self, cid, k=None, ht=None):
         """one digest query on the real object; returns the case for TLC"""
         from buidl.script import Script, RedeemScript, WitnessScript
         r = self.rng
         tx = self.tx
-        k = r.randrange(len(tx.tx_ins))
-        if r.random() < 0.04:
-            k = len(tx.tx_ins)           # out-of-range index (legacy "one" rule)
-        ht = r.choice(HTS)
+        if k is None:
+            k = r.randrange(len(tx.tx_ins))
+            if r.random() < 0.04:
+                k = len(tx.tx_ins)           # out-of-range index (legacy "one" rule)
+        ht = r.choice(HTS) if ht is None else ht
         kind = self.kinds[k] if k < len(self.kinds) else "p2pkh"
         m = self.meta[k] if k < len(self.meta) else None
         mode = r.choice(["direct", "direct", "dispatch"]) if m is not None else "direct"
@@ -386,6 +392,27 @@ def run(ctx):
                     cases.append(c)
             if h == 0:
                 ctx.sample({"history": trace})
+        # signing an unsigned taproot transaction input by input, in place (what finalize_* helpers do): the digest of every
+        # other input is queried after each signature lands
+        for h in range(4 if q else 40):
+            fx = Fixture(rng, unsigned_taproot=True)
+            nin = len(fx.tx.tx_ins)
+            step = 0
+            for k in range(nin):
+                if fx.kinds[k] != "p2tr-key":
+                    continue
+                last = "none" if k == 0 else "sign-in-place:%d" % (k - 1)
+                for j in range(nin):
+                    c = fx.query("u%d.s%d" % (h, step), k=j, ht=rng.choice([0, 1, 3, 0x81]))
+                    c["after_edit"], c["step"] = last, step
+                    cases.append(c)
+                    step += 1
+                fx.edit(what="annex", k=k)
+            for j in range(nin):
+                c = fx.query("u%d.s%d" % (h, step), k=j, ht=0)
+                c["after_edit"], c["step"] = "sign-in-place:%d" % (nin - 1), step
+                cases.append(c)
+                step += 1
         send = []
         for c in cases:
             cmeta[c["id"]] = c
